@@ -75,6 +75,7 @@ COMPOUND = "autofit/mapper/prior/arithmetic/compound.py"
 MODEL_OBJECT = "autofit/mapper/model_object.py"
 LOG_GAUSSIAN = "autofit/mapper/prior/log_gaussian.py"
 COLLECTION = "autofit/mapper/prior_model/collection.py"
+TUPLE_PRIOR = "autofit/mapper/prior/tuple_prior.py"
 DRAWER = "autofit/non_linear/search/mle/drawer/search.py"
 ABSTRACT_SEARCH = "autofit/non_linear/search/abstract_search.py"
 
@@ -180,9 +181,23 @@ def _facts(repo):
     else:
         raise T.TranslationError("Collection.gaussian_prior_model_for_arguments sets item_number in an unknown way: %s"
                                  % "; ".join(ast.unparse(x) for x in sets))
+    # TuplePrior.gaussian_tuple_prior_for_arguments: three loops (priors, fixed members, computed members) fill the new tuple
+    # priors first; ONE loop over self.__dict__.items() keeps the members in their own order
+    tptree, _ = T.parse_file(repo, TUPLE_PRIOR)
+    gt = T.find_function(tptree, "TuplePrior.gaussian_tuple_prior_for_arguments")
+    loops = [T._dotted(n.iter) or ast.unparse(n.iter) for n in gt.body if isinstance(n, ast.For)]
+    if any(isinstance(n, (ast.For, ast.While, ast.ListComp, ast.DictComp, ast.GeneratorExp)) and n not in gt.body for n in ast.walk(gt)):
+        raise T.TranslationError("TuplePrior.gaussian_tuple_prior_for_arguments has nested loops / comprehensions: member order unknown")
+    if loops == ["self.prior_tuples", "self.instance_tuples", "self.model_tuples"]:
+        tuple_keeps_order = False
+    elif loops in (["self.__dict__.items()"], ["self.__dict__.keys()"], ["self.__dict__"]):
+        tuple_keeps_order = True
+    else:
+        raise T.TranslationError("TuplePrior.gaussian_tuple_prior_for_arguments fills the new tuple in an unknown order: %r" % loops)
     global _MORE_FACTS
     _MORE_FACTS = {
         "derive_copies_item_number": copies_item_number,
+        "tuple_derive_keeps_order": tuple_keeps_order,
         "modified_prior_storable": operand_cls == "ModelObject" and "modified" in registered,
         # a parameter-free Model is written as "instance" only when _instance_is_exact(model)
         "instance_only_when_exact": any(isinstance(n, ast.FunctionDef) and n.name == "_instance_is_exact" for n in mtree.body)
@@ -277,6 +292,8 @@ def regenerate(repo=None):
         "Definition instance_only_when_exact : bool := %s." % ("true" if _MORE_FACTS["instance_only_when_exact"] else "false"),
         "(* %s: the effective Collection.gaussian_prior_model_for_arguments ends with collection.item_number = self.item_number *)" % COLLECTION,
         "Definition derive_copies_item_number : bool := %s." % ("true" if _MORE_FACTS["derive_copies_item_number"] else "false"),
+        "(* %s: TuplePrior.gaussian_tuple_prior_for_arguments sets the members in one pass in their own order (false: priors first) *)" % TUPLE_PRIOR,
+        "Definition tuple_derive_keeps_order : bool := %s." % ("true" if _MORE_FACTS["tuple_derive_keeps_order"] else "false"),
         "",
     ]
     text = "\n".join(lines)
@@ -293,8 +310,8 @@ def regenerate(repo=None):
         "join_sep": {"source": repr(sep), "line": sep_line},
         "numpy_scalars_unwrapped": bool(unwraps),
         "sets_sorted": bool(sorts),
-        "facts": {"source": "numpy scalars unwrapped=%r sets sorted=%r modified prior storable=%r instance only when exact=%r derived collection copies item_number=%r "
-                            % (bool(unwraps), bool(sorts), _MORE_FACTS["modified_prior_storable"], _MORE_FACTS["instance_only_when_exact"], _MORE_FACTS["derive_copies_item_number"]) + "CompoundPrior.__identifier_fields__=%r ModifiedPrior.__identifier_fields__=%r from_dict restores "
+        "facts": {"source": "numpy scalars unwrapped=%r sets sorted=%r modified prior storable=%r instance only when exact=%r derived collection copies item_number=%r derived tuple keeps member order=%r "
+                            % (bool(unwraps), bool(sorts), _MORE_FACTS["modified_prior_storable"], _MORE_FACTS["instance_only_when_exact"], _MORE_FACTS["derive_copies_item_number"], _MORE_FACTS["tuple_derive_keeps_order"]) + "CompoundPrior.__identifier_fields__=%r ModifiedPrior.__identifier_fields__=%r from_dict restores "
                             "item_number=%r LogGaussianPrior.dict=%r Drawer search.json readable=%r" % (compound, modified, restores, has_dict, drawer_ok),
                   "line": 0},
     }
@@ -1465,6 +1482,22 @@ def derive_step(rng, gen, S, route=None):
     return D, H
 
 
+NO_ARGUMENT_ROUTES = ("copy", "freeze", "freeze_unfreeze")      # derivations that do not go through gaussian_prior_model_for_arguments
+
+
+def derive_labels(base, steps):
+    """label of the recorded finding derived-tuple-member-order, computed from the case: the source holds a tuple with a
+    fixed member before a free one and some step goes through gaussian_prior_model_for_arguments"""
+    if all(d["route"] in NO_ARGUMENT_ROUTES for d in steps):
+        return []
+    for _, n in walk_spec(base["model"]):
+        if n["t"] == "tuple":
+            kinds = [v["t"] == "prior" for _, v in n["members"]]
+            if any(not a and b for i, a in enumerate(kinds) for b in kinds[i + 1:]):
+                return ["derived_tuple_order"]
+    return []
+
+
 def derive_cases(rng, gen, S, quick):
     """pairs (model composed by hand, model derived by the library from S) that must share one identifier -- directly,
     through the files a fit of the derived model writes, and after a second derivation -- and the derived model itself
@@ -1486,13 +1519,15 @@ def derive_cases(rng, gen, S, quick):
             pools.append(hand["pool"])
         how = "derive:" + "+".join(d["route"] for d in steps)
         b = with_build(base, derive=steps)
-        out.append({"kind": "pair", "how": how, "expect": "same", "a": hand, "b": b, "labels": []})
+        lab = derive_labels(base, steps)
+        out.append({"kind": "pair", "how": how, "expect": "same", "a": hand, "b": b, "labels": list(lab)})
         r = rng.random()
         if r < 0.5:
             out.append({"kind": "pair", "how": "derive_files:" + how[7:], "expect": "same", "a": hand,
-                        "b": with_build(base, derive=steps, route="files", export=rng.random() < 0.3), "labels": []})
+                        "b": with_build(base, derive=steps, route="files", export=rng.random() < 0.3),
+                        "labels": lab + reload_labels(hand, "files")})
         if r > (0.6 if quick else 0.3):
-            out.append({"kind": "fit", "spec": b, "hand": hand, "step_pools": pools})
+            out.append({"kind": "fit", "spec": b, "hand": hand, "step_pools": pools, "labels": list(lab)})
         # the derived model still differs from the model it was derived from whenever a prior changed
         if hand["pool"] != base["pool"] and rng.random() < 0.3 and _json.dumps(hand["pool"], sort_keys=True) != _json.dumps(base["pool"], sort_keys=True):
             changed = [i for i in used_refs(base) if hand["pool"][i] != base["pool"][i]]
@@ -1816,10 +1851,11 @@ def oracle(c, r):
                 if b.get("folder") != b.get("paths_identifier") or not b.get("folder_exists"):
                     out.append(("output folder is not named by the identifier", False))
                 if b.get("paths_identifier") != ida:
-                    out.append(("paths.identifier of the written fit differs from the identifier", False))
+                    out.append(("paths.identifier of the written fit differs from the identifier", ["derived_tuple_order"]))
                 if b.get("identifier") is not None and b.get("identifier") != b.get("folder"):
                     out.append(("the fit wrote its files to folder %s but model.json / search.json read back from that folder "
-                                "(SearchOutput.id) give the identifier %s" % (b.get("folder"), b.get("identifier")), False))
+                                "(SearchOutput.id) give the identifier %s" % (b.get("folder"), b.get("identifier")),
+                                ["reload:fixed_model"]))
             if "raised" in b:
                 out.append(("equal construction (%s): %s at stage %s of going through the fit's own files"
                             % (c["how"], b["raised"], b.get("stage")), True))
@@ -1868,9 +1904,10 @@ def coq_terms(c, r):
         steps = [clist([cpair(cZ(i), node_term({"t": "prior", "ref": i}, pl)) for i in used])
                  for d, pl in zip(S["build"]["derive"], c["step_pools"]) if d["route"] not in ("copy", "freeze", "freeze_unfreeze")]
         if all(ascii_ok(x) for x in r["hash_list"]):
-            out.append("CDerive %s %s %s %s %s %s %s %s" % (
+            out.append("CDerive %s %s %s %s %s %s %s %s %s" % (
                 str_table(fl), search_term(S["search"]), node_term(S["model"], S["pool"]), node_term(H["model"], H["pool"]),
-                clist(steps), copt(S.get("tag"), cstr), obj_term(r["abs_model"]), cslist(r["hash_list"])))
+                clist(steps), copt(S.get("tag"), cstr), cbool("derived_tuple_order" not in c.get("labels", [])),
+                obj_term(r["abs_model"]), cslist(r["hash_list"])))
     elif k == "fit" and "raised" not in r and r.get("abs_model"):
         S = c["spec"]
         fl = spec_floats(S, set())
